@@ -27,6 +27,10 @@ inductive Ev where
   | proc (ok : Bool)                   -- process() takes the head of the queue, sends, flushes
   | bg (ok : Bool)                     -- Connect at the top of process()'s loop (or the initial Connect)
   | peerClose (c n : Nat)
+  | setCap (c : Int)                   -- Queue.SetCapacity
+  | setTimeout (n : Nat)
+  | reconf (t : Nat) (ok : Bool)       -- ApplyConfig with a changed license / server list: Close, Connect
+  | tick (d : Nat)
   deriving Repr
 
 /-- actions of `send()` up to and including the copy of the frame into the buffered writer -/
@@ -61,5 +65,10 @@ def expand (cfg : Cfg) (lenOf : Nat → Nat) (s : St) : Ev → List Act
   | .bg true => if cfg.bgLocked then [.bgConnectOk] else [.bgCheck, .bgDialOk]
   | .bg false => if cfg.bgLocked then [.bgConnectFail] else [.bgCheck, .bgDialFail]
   | .peerClose c n => [.peerClose c n]
+  | .setCap c => [.setCapacity c]
+  | .setTimeout n => [.setTimeout n]
+  | .reconf t true => [.reconfClose t, .reconfDialOk t]
+  | .reconf t false => [.reconfClose t, .reconfDialFail t]
+  | .tick d => [.tick d]
 
 end Tcp
